@@ -279,8 +279,10 @@ def matrix_coq(m):
     for p in m["pats"]:
         rows = ["(%s, %s, %s)" % ("None" if r["v"] == "" else "(Some %s)" % runes(r["v"]), coq_bool(r["u"]), coq_bool(r["i"]))
                 for r in p["rows"]]
-        ps.append("mkMP %s %s %s %s %s %s %s %s %s" % (runes(p["pat"]), runes(p.get("vtext", p["pat"])), ast_coq(p["ast"]), ast_coq(p["final"]), runes(p["prefix"]), coq_bool(p["has_sfx"]),
-                                                  ast_coq(p.get("sfx")), coq_list([runes(x) for x in p["orv"]]), coq_list(rows)))
+        ps.append("mkMP %s %s %s %s %s %s %s %s %s %s %s %s" % (
+            runes(p["pat"]), runes(p.get("vtext", p["pat"])), ast_coq(p["ast"]), ast_coq(p["final"]), runes(p["prefix"]),
+            coq_bool(p["has_sfx"]), ast_coq(p.get("sfx")), coq_list([runes(x) for x in p["orv"]]),
+            coq_list([runes(x) for x in p.get("aov") or []]), runes(p.get("alp", "")), coq_bool(p.get("all", False)), coq_list(rows)))
     return ps
 
 
@@ -398,7 +400,10 @@ def parse_triples(out, name="M"):
     if not m:
         return None
     txt = re.sub(r"\s+", "", m.group(1))      # the printer breaks lines anywhere, also right after "("
-    return [(int(a), int(b), int(c)) for a, b, c in re.findall(r"\((\d+)(?:%\w+)?,(\d+)(?:%\w+)?,(\d+)(?:%\w+)?\)", txt)]
+    tup = r"\((\d+)(?:%\w+)?,(\d+)(?:%\w+)?,(\d+)(?:%\w+)?\)"
+    if re.sub(tup, "", txt).strip("[];") != "":
+        return None                           # something in the list was not read as a triple: fail closed
+    return [(int(a), int(b), int(c)) for a, b, c in re.findall(tup, txt)]
 
 
 def parse_classes(out):
@@ -406,7 +411,10 @@ def parse_classes(out):
     if not m:
         return None
     txt = re.sub(r"\s+", "", m.group(1))
-    return [(int(a), b == "true") for a, b in re.findall(r"\((\d+)(?:%\w+)?,(true|false)\)", txt)]
+    tup = r"\((\d+)(?:%\w+)?,(true|false)\)"
+    if re.sub(tup, "", txt).strip("[];") != "":
+        return None
+    return [(int(a), b == "true") for a, b in re.findall(tup, txt)]
 
 
 HDR = ("From Coq Require Import NArith List Bool. From OG Require Import C10.Model C10.Regex C10.Corr.\n"
@@ -441,7 +449,7 @@ def main(ck):
                               "no axioms (Print Assumptions: closed)", "Go regexp as the oracle of regex atoms; Go regexp/syntax parser for the pattern trees",
                               "Go harness cmd/c10 (generator, brute-force oracle), python driver props/C10/run.py (interning, signatures)"]
     ck.coq_audit(["C10"])
-    ok = ck.coq_build(["C10/Proofs.vo", "C10/RegexProofs.vo", "C10/RegexAlt.vo", "C10/RegexSearch.vo", "C10/FlushClear.vo", "C10/ListingCond.vo", "C10/Prune.vo", "C10/Corr.vo", "C10/Props.vo", "C10/Refuted.vo"])
+    ok = ck.coq_build(["C10/Proofs.vo", "C10/RegexProofs.vo", "C10/RegexSem.vo", "C10/RegexNew.vo", "C10/RegexAlt.vo", "C10/RegexSearch.vo", "C10/FlushClear.vo", "C10/ListingCond.vo", "C10/Prune.vo", "C10/Corr.vo", "C10/Props.vo", "C10/Refuted.vo"])
     if ok:
         ck.coq_props(["C10/Props.v", "C10/Refuted.v"])
     ck.log("coq built and property theorems re-checked")
@@ -499,14 +507,22 @@ def main(ck):
     keytext = {}
     mx = {}
     if ok:
-        mps = matrix_coq(matrix)
+        # canary: a copy of the first pattern whose first measured row is falsified must be reported (row 1, code 10) by both
+        # evaluations; a run in which it is not reported reads nothing from the evaluation
+        can = json.loads(json.dumps(matrix["pats"][0]))
+        can["rows"][0]["i"] = not can["rows"][0]["i"]
+        mps = matrix_coq({"pats": matrix["pats"] + [can]})
+        ncan = len(matrix["pats"])
         texts = []
         for tag, cr in (("mxcur", "true"), ("mxrep", "false")):
             texts.append((tag, HDR + "Definition ps : list mpat := [\n%s\n].\nDefinition M := Eval vm_compute in check_matrix %s 0 ps.\nPrint M.\n"
                           % (";\n".join(mps), cr)))
+        esc_b = matrix.get("escape") or [-1, -1, -1]
         texts.append(("classes", HDR + "Definition K := Eval vm_compute in pattern_classes %s.\nPrint K.\n"
                       "Definition L := Eval vm_compute in map cache_literal %s.\nPrint L.\n"
-                      % (coq_list([ast_coq(allpats[p]) for p in patlist]), coq_list([ast_coq(allpats[p]) for p in patlist]))))
+                      "Definition CONSTS := Eval vm_compute in check_consts %d %d %d %d.\nPrint CONSTS.\n"
+                      % (coq_list([ast_coq(allpats[p]) for p in patlist]), coq_list([ast_coq(allpats[p]) for p in patlist]),
+                         max(matrix.get("max_or_values", 0), 0), max(esc_b[0], 0) if esc_b[0] >= 0 else 999, max(esc_b[1], 0), max(esc_b[2], 0))))
         res = ck.coq_eval_many(texts, timeout=1200)
         for (tag, _), (rc2, o) in zip(texts, res):
             if rc2 != 0:
@@ -515,8 +531,17 @@ def main(ck):
         if ok:
             mx["cur"] = parse_triples(res[0][1])
             mx["rep"] = parse_triples(res[1][1])
+            for k in ("cur", "rep"):
+                if mx[k] is not None:
+                    if (ncan, 1, 10) not in mx[k]:
+                        ck.broken.append("C10 matrix evaluation canary (%s): the falsified row was not reported" % k)
+                        ok = False
+                    mx[k] = [t for t in mx[k] if t[0] != ncan]
             kl = parse_classes(res[2][1])
             lits = parse_optlists(res[2][1])
+            if not re.search(r"CONSTS\s*=\s*true\s*:\s*bool", res[2][1]):
+                ck.broken.append("constants of the translation in the source (maxOrValues=%s, escaped bytes=%s) differ from the ones the "
+                                 "model was proved with, or could not be read" % (matrix.get("max_or_values"), matrix.get("escape")))
             if mx["cur"] is None or mx["rep"] is None or kl is None or len(kl) != len(patlist) or lits is None or len(lits) != len(patlist):
                 ck.broken.append("model evaluation output of the regex matrix could not be parsed")
                 ok = False
@@ -532,53 +557,50 @@ def main(ck):
     if ok:
         cur_rows = [(a, b, c) for a, b, c in mx["cur"] if b > 0]
         rep_rows = [(a, b, c) for a, b, c in mx["rep"] if b > 0]
-        stages = [(a, c) for a, b, c in mx["cur"] if b == 0]
+
+        def has_repeat(t):
+            return t is not None and (t["op"] == "repeat" or any(has_repeat(x) for x in t.get("sub") or []))
+        stages_old = [(a, c) for a, b, c in mx["cur"] if b == 0]
+        # Go's Simplify (not modelled) expands counted repetitions before anchoredOrValues looks at the tree
+        stages_new = [(a, c) for a, b, c in mx["rep"] if b == 0 and not (c == 25 and has_repeat(matrix["pats"][a]["ast"]))]
         nrows = sum(len(p["rows"]) for p in matrix["pats"])
-        ck.cov["regex_matrix"] = {"patterns": len(matrix["pats"]), "rows": nrows,
-                                  "rows_index_differs_from_go_regexp": sum(1 for p in matrix["pats"] for r in p["rows"] if r["u"] != r["i"]),
-                                  "rows_model_current_differs": len(cur_rows), "rows_model_repaired_differs": len(rep_rows),
-                                  "stage_mismatches_current": ["%s:%d" % (matrix["pats"][a]["pat"], c) for a, c in stages][:20]}
+        devi = [(a, b + 1) for a, p in enumerate(matrix["pats"]) for b, r in enumerate(p["rows"]) if r["u"] != r["i"]]
+        ck.cov["regex_matrix"] = {"patterns": len(matrix["pats"]), "rows": nrows, "rows_index_differs_from_go_regexp": len(devi),
+                                  "rows_model_before_f7a71a4_differs": len(cur_rows), "rows_model_today_differs": len(rep_rows),
+                                  "stage_mismatches_today": ["%s:%d" % (matrix["pats"][a]["pat"], c) for a, c in stages_new][:20],
+                                  "generated_patterns": sum(1 for p in matrix["pats"] if p.get("gen"))}
         for f in matrix["oracle"]:
             nviol += 1
             ck.violation({"kind": "direct-oracle", "what": f["what"], "failure": f})
-        bad9 = [(a, b) for a, b, c in cur_rows if c == 9]
+        bad9 = [(a, b) for a, b, c in cur_rows + rep_rows if c == 9]
         if bad9:
             a, b = bad9[0]
             ck.broken.append("the model's regexp matcher differs from Go regexp on pattern /%s/ value %r" %
                              (matrix["pats"][a]["pat"], matrix["pats"][a]["rows"][b - 1]["v"]))
-        if not cur_rows:
-            tree_regex_current = True
-            if stages:
-                ck.notes.append("regex translation: behaviour equals the model of today's code on the whole matrix, but intermediate "
-                                "stages differ (diagnostic only): %s" % ck.cov["regex_matrix"]["stage_mismatches_current"])
-            # every deviation of the index from Go regexp in the matrix is a direct-oracle failure (a real search on probe series)
-            for p in matrix["pats"]:
-                for r in p["rows"]:
-                    if r["u"] != r["i"]:
-                        s = classify_pair(classes, p["pat"], r["v"])
-                        if s is not None and ck.match_finding(s):
-                            stale.discard(s)
-                            ck.known_finding(s, WHAT[s])
-                        else:
-                            nviol += 1
-                            if nviol <= 4:
-                                ck.violation(probe_replay(p["pat"], r, "regex atom outside every open finding: the index deviates from unanchored matching"
-                                                          if s is None else "finding %s is not open but the index still deviates" % s))
-        elif not rep_rows:
-            pass        # the tree implements the repaired translation: nothing deviates
-        else:
-            # neither variant reproduces the index. Rows where the index differs from the model of today's code AND from Go regexp
-            # are concrete failing inputs
-            conc = [(a, b) for a, b, c in cur_rows if c == 10 and matrix["pats"][a]["rows"][b - 1]["u"] != matrix["pats"][a]["rows"][b - 1]["i"]]
-            for a, b in conc[:4]:
+        tree_regex_current = not cur_rows
+        if not rep_rows and stages_new:
+            ck.notes.append("regex translation: behaviour equals the model of today's code on the whole matrix, but intermediate "
+                            "stages differ (diagnostic only): %s" % ck.cov["regex_matrix"]["stage_mismatches_today"])
+        # every deviation of the index from Go regexp in the matrix is a direct-oracle failure (a real search on probe series). It
+        # belongs to a regex finding iff the model of the translation before f7a71a4 reproduces the index on that row and the pair
+        # lies outside the characterisation theorem; a finding that is not open does not excuse it.
+        cur10 = {(a, b) for a, b, c in cur_rows if c == 10}
+        for a, b in devi:
+            p, r = matrix["pats"][a], matrix["pats"][a]["rows"][b - 1]
+            s = classify_pair(classes, p["pat"], r["v"]) if (a, b) not in cur10 else None
+            if s is not None and ck.match_finding(s):
+                stale.discard(s)
+                ck.known_finding(s, WHAT[s])
+            else:
                 nviol += 1
-                ck.violation(probe_replay(matrix["pats"][a]["pat"], matrix["pats"][a]["rows"][b - 1],
-                                          "the index deviates from unanchored matching and from the model of today's translation; stages differing: %s"
-                                          % [c for a2, c in stages if a2 == a]))
-            if not conc:
-                a, b, c = cur_rows[0]
-                ck.broken.append("correspondence C10 regex translation: the index agrees with Go regexp but with neither model variant, e.g. /%s/ on %r"
-                                 % (matrix["pats"][a]["pat"], matrix["pats"][a]["rows"][b - 1]["v"]))
+                if nviol <= 4:
+                    ck.violation(probe_replay(p["pat"], r, ("the index deviates from unanchored matching (and from every model of the translation); "
+                                                            "stages of today's translation that differ: %s" % [c for a2, c in stages_new if a2 == a])
+                                              if s is None else "finding %s is not open but the index deviates as it describes" % s))
+        if not devi and rep_rows and not bad9:
+            a, b, c = rep_rows[0]
+            ck.broken.append("correspondence C10 regex translation: the index agrees with Go regexp but the model of today's translation does not, "
+                             "e.g. /%s/ on %r" % (matrix["pats"][a]["pat"], matrix["pats"][a]["rows"][b - 1]["v"]))
 
     ck.log("regex matrix evaluated")
     # ---- model evaluation of the cases. The model has three independent current/repaired switches (key lookup sees flushed
@@ -754,6 +776,8 @@ def parse_optlists(out):
         return None
     txt = re.sub(r"\s+", "", m.group(1))
     res = []
+    if re.sub(r"None|Some\[[^\]]*\]", "", txt).strip("[];") != "":
+        return None
     for tok in re.findall(r"None|Some\[[^\]]*\]", txt):
         if tok == "None":
             res.append(None)
